@@ -1986,6 +1986,38 @@ class QuantifiedConditional(LogicalBinaryOperator, ABC):
             if k in self.condition_unique_variable_ids
         }
 
+    def _complete_bindings_of_the_other_variables_(
+        self, condition_result: OperationResult
+    ) -> Iterable[Dict[int, HashedValue]]:
+        """
+        A result of the condition that was decided without looking at one of the other variables (an and_ / or_ that
+        short-circuited) stands for every value of that variable. A candidate solution of the universal operator is one
+        assignment of all of them, it is checked again for every further value of the universal variable.
+
+        :param condition_result: A result of the condition.
+        :return: The bindings of the other variables of the condition, one for every combination of values of the
+         variables that the result left unbound.
+        """
+        unbound = [
+            variable.value
+            for variable in self.condition._unique_variables_
+            if variable.id_ in self.condition_unique_variable_ids
+            and variable.id_ not in condition_result.bindings
+        ]
+
+        def expand(index, bindings):
+            if index == len(unbound):
+                yield {
+                    k: v
+                    for k, v in bindings.items()
+                    if k in self.condition_unique_variable_ids
+                }
+                return
+            for result in unbound[index]._evaluate__(bindings, parent=self):
+                yield from expand(index + 1, result.bindings)
+
+        yield from expand(0, condition_result.bindings)
+
     def _other_variables_are_bound_in_(self, sources: Dict[int, HashedValue]) -> bool:
         """
         :param sources: The bindings the operator is evaluated under.
@@ -2109,13 +2141,13 @@ class ForAll(QuantifiedConditional):
         values_that_do_not = []
         # Evaluate the condition under this particular universal value
         for condition_val in self.condition._evaluate__(sources, parent=self):
-            condition_val_bindings = self._bindings_of_the_other_variables_(
+            for condition_val_bindings in self._complete_bindings_of_the_other_variables_(
                 condition_val
-            )
-            if condition_val.is_false:
-                values_that_do_not.append(condition_val_bindings)
-            else:
-                values_that_satisfy_condition.append(condition_val_bindings)
+            ):
+                if condition_val.is_false:
+                    values_that_do_not.append(condition_val_bindings)
+                else:
+                    values_that_satisfy_condition.append(condition_val_bindings)
         return values_that_satisfy_condition, values_that_do_not
 
     def evaluate_condition(self, sources: Dict[int, HashedValue]) -> bool:
